@@ -4,7 +4,7 @@ from __future__ import annotations
 import ast
 from typing import Dict, List, Optional, Set, Tuple
 
-from ..an import avoiding_path, cut, is_method_call
+from ..an import avoiding_path, cut, is_method_call, with_flags
 from ..cfg import calls_at
 from ..core import Checker
 from ..loader import AnalysisError, Func, norm, walk_expr, walk_own
@@ -460,9 +460,7 @@ def _compare_rules(ck: Checker) -> None:
         def isdir_name(nm: str) -> bool:
             return "isdir" in nm or any(d.kind == "assign" and "isdir" in norm(d.value) for d in _scope(cmp_).get(nm))
 
-        def kinds_known_equal(a, lab, b) -> bool:
-            if lab == "exc":
-                return True
+        def kinds_lit(a, lab) -> bool:
             if a.kind != "test":
                 return False
             e = a.ast
@@ -476,7 +474,8 @@ def _compare_rules(ck: Checker) -> None:
 
         dids = {n.id for n in d_in}
         heads_ = {x.id for x in g.nodes.values() if x.kind == "for" and x.id in t.loops}
-        rr2 = g.reach([d for lab, d in t.succ if lab == mlab], skip_node=lambda x: x.id in dids, skip_edge=kinds_known_equal)
+        lifted_k = with_flags(g, kinds_lit, start=t.loops[-1] if t.loops else None)
+        rr2 = g.reach([d for lab, d in t.succ if lab == mlab], skip_node=lambda x: x.id in dids, skip_edge=lambda a, lab, b: lab == "exc" or lifted_k(a, lab))
         badk = [h_ for h_ in heads_ if h_ in rr2]
         ck.require(not badk, "C09.kinds", cmp_, t, "a MODIFY skips the replacement only when old and new are known to be of the same kind",
                    "a MODIFY can leave the old entry in place without having compared the kinds of old and new (only the hashes): when neither side has a hash - a workspace scanned without hashing, an intermediate directory of a tree - a file stays where a directory is needed and creating what lies below fails",
